@@ -79,8 +79,12 @@ func (x *Exec) RestartEquivalent() *vcore.Failure {
 func (x *Exec) LeakCheck(sig string) *vcore.Failure {
 	snap := x.W.Snap()
 	for ip, f := range snap.Alloc {
-		if f.Reserved || f.Key == "" {
+		if f.Reserved {
 			continue
+		}
+		if f.Key == "" {
+			// allocated (taken out of the free table, an object in the store) but owned by nobody: no release path ever finds it
+			return vcore.Failf(sig, "IP %s is allocated to the empty key: it belongs to nobody and can never be released or handed out again", ip)
 		}
 		ko := putil.ParseKey(f.Key)
 		if ko.PodName == "" || !x.truthGone(ko.PodName) {
